@@ -77,6 +77,9 @@ func (h *histState) oraclePhase() {
 		}
 		for _, n := range sortedKeys(rec.canon.Results) {
 			got := rec.canon.Results[n]
+			if rec.script != nil && isProbeName(n) {
+				continue // scripted probes are judged by the lifecycle model, not by the reference
+			}
 			h.checks++
 			if pn := R.Panics[n]; pn != "" {
 				// the reference itself (fresh process, this lint alone) panics out of the entry point
@@ -192,12 +195,15 @@ func (h *histState) pairwise() {
 					if !ok || x == y || reported[n] {
 						continue
 					}
+					if (ra.script != nil || rb.script != nil) && isProbeName(n) {
+						continue
+					}
 					reported[n] = true
 					h.violate(Violation{Property: "C07", Class: "selection_dep", Lint: n, Op: rb.op,
 						Detail:   fmt.Sprintf("ops %d (reg %d, %d lints) and %d (reg %d, %d lints) lint the same bytes under the same configuration but disagree", ra.op, ra.reg, len(ra.sel), rb.op, rb.reg, len(rb.sel)),
 						Expected: x.String(), Got: y.String()})
 				}
-				if !ra.partial && !rb.partial {
+				if !ra.partial && !rb.partial && ra.script == nil && rb.script == nil {
 					sub := func(p, q *lintRecord) {
 						for n := range p.sel {
 							if !q.sel[n] {
